@@ -23,6 +23,7 @@ mod c07;
 mod c08;
 mod c09;
 mod c10;
+mod c11;
 mod c15;
 mod c17;
 mod c18;
@@ -120,6 +121,7 @@ fn main() {
         "C08" => c08::run(&ctx),
         "C09" => c09::run(&ctx),
         "C10" => c10::run(&ctx),
+        "C11" => c11::run(&ctx),
         "C15" => c15::run(&ctx),
         "C17" => c17::run(&ctx),
         "C18" => c18::run(&ctx),
